@@ -1005,6 +1005,23 @@ def c04_17(ctx):
                 if not isinstance(r, Obj) or r.cls != clsname or back != raw:
                     return [ctx.bad(spec, "the %s output script with hash / program bytes %s… parses to %s and re-serialises to %s" % (
                         label, h.hex()[:16], r.cls if isinstance(r, Obj) else r, back.hex()[:24] if isinstance(back, bytes) else back), fn, mod, key="template-opaque")]
+        # near misses: a script in which a DATA ELEMENT stands where the template has an opcode (an element of N bytes where opcode N belongs:
+        # an empty PUSHDATA1 element for OP_0, an 81-byte element for OP_1, elements of 0xa9 / 0x87 bytes for HASH160 / EQUAL) is not that
+        # template: it must not be given the template's class -- and with it the template's address
+        h20, h32 = bytes(range(1, 21)), bytes(range(1, 33))
+        near = [("an empty PUSHDATA1 element where p2wpkh has OP_0", b"\x4c\x00\x14" + h20, "P2WPKHScriptPubKey"),
+                ("an empty PUSHDATA1 element where p2wsh has OP_0", b"\x4c\x00\x20" + h32, "P2WSHScriptPubKey"),
+                ("an 81-byte element where p2tr has OP_1", b"\x4c\x51" + bytes(81) + b"\x20" + h32, "P2TRScriptPubKey"),
+                ("elements of 0xa9 and 0x87 bytes where p2sh has HASH160 and EQUAL", b"\x4c\xa9" + bytes(0xA9) + b"\x14" + h20 + b"\x4c\x87" + bytes(0x87), "P2SHScriptPubKey")]
+        for what, raw, clsname in near:
+            n += 1
+            try:
+                pre = bytes([len(raw)]) if len(raw) < 0xFD else b"\xfd" + len(raw).to_bytes(2, "little")
+                r = Evaluator(ctx.repo, max_steps=3000000).call(spec, [FileStandIn(pre + raw)], self_obj=ClassRef("script", "ScriptPubKey"))
+            except Raised:
+                continue   # refusing it is also not mistaking it
+            if isinstance(r, Obj) and r.cls == clsname:
+                return [ctx.bad(spec, "a script with %s parses to %s: it would get the address of a script it is not" % (what, clsname), fn, mod, key="template-opaque")]
     except Undecided as u:
         return [ctx.err(spec, "ScriptPubKey.parse not evaluable: %s" % u, fn, mod)]
     ctx.count("cells", n)
